@@ -193,8 +193,6 @@ func c30Exec(p *harness.Plan) *harness.Outcome {
 				case 1:
 					other := r.node(acceptor.Idx + 1 + int(op.C/12)%5)
 					copy(msg[8:40], other.Id[:])
-					acceptorAlt := other
-					_ = acceptorAlt
 				default:
 					msg[72] ^= 1
 				}
